@@ -52,7 +52,9 @@ PROBES = ["family_fast_in", "family_fast_flow", "family_opp", "family_pkone",
           "duplicate_report", "unconfigured_switch_report",
           "opp_bad_crc_window", "opp_matrix_change", "opp_payload_looks_like_header", "opp_lost_poll_reply",
           "flow_confirmed_cmd", "flow_write_queued_behind_confirm", "flow_dup_confirmation", "flow_lost_response",
-          "flow_retry_sent", "flow_reset", "flow_boot_id_lost", "flow_latency_over_100ms"]
+          "flow_reset", "flow_boot_id_lost", "flow_latency_over_100ms"]
+# "flow_retry_sent" is counted as well but not expected: while the recorded finding C14-fast-lost-response-never-retried
+# stands MPF never re-sends anything, so that probe can only fire once the retry logic is repaired.
 REAL = ["mpf.platforms.fast.communicators.base/net_neuron (reader, writer, parse_incoming_raw_bytes, flow control)",
         "mpf.platforms.fast.fast/fast_switch/fast_driver", "mpf.platforms.opp.opp + opp_serial_communicator (+CRC8)",
         "mpf.platforms.pkone.pkone + pkone_serial_communicator", "mpf.platforms.base_serial_communicator",
@@ -61,6 +63,21 @@ REAL = ["mpf.platforms.fast.communicators.base/net_neuron (reader, writer, parse
 STUBS = ["event loop (SimLoop)", "clock (SimClock)", "serial port (SimSerial: chunking, arrival times)",
          "board firmware models FAST Neuron NET / OPP gen2 chain / PKONE Nano (checks/_c14_boards.py)",
          "in-memory data manager"]
+RELAXATIONS = [
+    "may: a well-formed report with noise glued in front of it (no delimiter in between) may be decoded or dropped",
+    "unknown switch: reports for switch numbers without a configured switch are ignored (MPF keeps no state for them)",
+    "crc collision: (OPP) a window of the delivered bytes with a correct CRC8 that MPF accepts is legitimate even if "
+    "noise produced it; MPF is also free not to accept a valid window while it is resynchronising - only after the "
+    "noise has stopped and >= 10 clean poll replies were delivered the states must equal the last report",
+    "header match: a confirmation is any delivered line whose first three characters equal H[:3] (MPF matches headers "
+    "only, so a duplicated confirmation is indistinguishable from the awaited one)",
+    "stale: a spare line with the awaited header delivered in the same instant as (and before) the port write of the "
+    "confirmed command may confirm it (it may be dispatched after MPF queued the command)",
+    "expired: once the configured timeout of a command has passed without confirmation the attempt counts as lost and "
+    "the link is free again (for the retry or other queued commands)",
+    "masked: no retry is demanded if another SL:/DL:/SA: response line was delivered while the command waited",
+    "lateness: timeouts/retries may be late by an injected loop stall, never early",
+]
 ASSUMPTIONS = ["a serial line neither reorders nor invents bytes by itself: everything MPF reads was put on the wire by "
                "the board model (possibly damaged by the injected noise), in wire order",
                "handshake replies arrive within the windows the handshakes are written for (OPP EOM echo < 10 ms, "
